@@ -98,6 +98,22 @@ func genC14(r *Rng, tier string) *World {
 				f.Key, f.Tags = GoName(f.Key), nil
 			}
 		})
+	} else if fam == "flat" && r.P(0.1) {
+		// a source tag that is present but empty names the member "" of that source (`{"": v}`, `=v`); it is not "no tag":
+		// the field must not fall through to its zog tag or schema key there (the root record has no tests of its own,
+		// so an issue reported at the empty path is this field's)
+		f := root.Fields[r.Intn(len(root.Fields))]
+		var keep []KV
+		for _, t := range f.Tags {
+			if t.K == "zog" || t.K == "env" {
+				keep = append(keep, t)
+			}
+		}
+		f.Tags = append(keep, KV{"json", VS("")}, KV{"form", VS("")}, KV{"query", VS("")})
+		if _, ok := f.Tag("zog"); !ok && r.P(0.5) {
+			f.Tags = append(f.Tags, KV{"zog", VS("z_" + f.Key)})
+		}
+		w.Params["empty_source_tag"] = 1
 	}
 	if ptrRoot {
 		root = &Node{Kind: "ptr", Req: r.P(0.3), Elem: root}
@@ -243,7 +259,20 @@ func genC14(r *Rng, tier string) *World {
 
 // logicalPath maps the source-specific keys of a path back to schema keys.
 func logicalPath(n *Node, path, source string) string {
-	if path == "" || n == nil {
+	if n == nil {
+		return path
+	}
+	if path == "" {
+		for n.Kind == "ptr" || n.Kind == "pre" {
+			n = n.Elem
+		}
+		if n.Kind == "struct" {
+			for _, f := range n.Fields {
+				if _, tagged := f.Tag(source); tagged && SourceKey(f, source) == "" {
+					return f.Key // the member named "" of this source
+				}
+			}
+		}
 		return path
 	}
 	switch n.Kind {
